@@ -232,6 +232,11 @@ def run_check(args):
     trusted = []
     for key, cs in REG.contracts.items():
         for c in cs:
+            if c.assumes and prop in c.prop.split(","):
+                for a in c.assumes:
+                    t_ = "structural invariant assumed at entry of %s: %s" % (c.qual, a if isinstance(a, str) else "clause")
+                    if t_ not in assumptions:
+                        assumptions.append(t_)
             if not c.verify and prop in c.prop.split(","):
                 trusted.append("assumed (not verified) contract: %s:%s %s" % (c.rel, c.qual, c.note))
     n_known = len(known)
